@@ -26,7 +26,9 @@ theorem ofSigned_lt (n : Nat) (v : Int) : ofSigned n v < 256 ^ n := by
   have h1 := Int.emod_lt_of_pos v hp
   have h0 := Int.emod_nonneg v (Int.ne_of_gt hp)
   have : ((v % 2 ^ (8 * n)).toNat : Int) < ((256 ^ n : Nat) : Int) := by
-    rw [Int.toNat_of_nonneg h0]; push_cast; rw [pow256]; exact h1
+    rw [Int.toNat_of_nonneg h0, Int.natCast_pow]
+    show v % 2 ^ (8 * n) < (256 : Int) ^ n
+    rw [pow256]; exact h1
   exact Int.ofNat_lt.mp this
 
 @[simp] theorem length_enc (f : Fmt) (v : Int) : (f.enc v).length = f.size := by
@@ -282,5 +284,726 @@ theorem member_py_prog_same_bytes (mem bs : Bytes) (base K rel : Nat)
       rw [List.getElem?_eq_none (by omega), List.getElem?_eq_none (by omega)]
   · intro i hi
     exact getElem?_setRange_outside mem (base + rel) bs i hw (by omega)
+
+/-! ### the finite map under an encoding that is injective on the valid keys -/
+
+section Assoc
+variable {α β α' β' : Type} [DecidableEq α] [DecidableEq α']
+
+/-- the image of an abstract map under key / value encodings -/
+def emap (f : α → α') (g : β → β') (m : List (α × β)) : List (α' × β') := m.map fun e => (f e.1, g e.2)
+
+variable (f : α → α') (g : β → β') (P : α → Prop) (inj : ∀ a b, P a → P b → f a = f b → a = b)
+include inj
+
+theorem lookup_emap : ∀ (m : List (α × β)) (k : α), (∀ e ∈ m, P e.1) → P k →
+    lookup (emap f g m) (f k) = (lookup m k).map g
+  | [], _, _, _ => rfl
+  | (k', v) :: m, k, hm, hk => by
+    have hk' : P k' := hm (k', v) (by simp)
+    have ih := lookup_emap m k (fun e he => hm e (by simp [he])) hk
+    by_cases h : k' = k
+    · simp [emap, lookup, h]
+    · have hne : f k' ≠ f k := fun e => h (inj k' k hk' hk e)
+      simp only [emap, List.map_cons, lookup, h, hne, ↓reduceIte] at ih ⊢
+      exact ih
+
+theorem replace_emap : ∀ (m : List (α × β)) (k : α) (v : β), (∀ e ∈ m, P e.1) → P k →
+    replace (emap f g m) (f k) (g v) = emap f g (replace m k v)
+  | [], _, _, _, _ => rfl
+  | (k', v') :: m, k, v, hm, hk => by
+    have hk' : P k' := hm (k', v') (by simp)
+    have ih := replace_emap m k v (fun e he => hm e (by simp [he])) hk
+    by_cases h : k' = k
+    · simp [emap, replace, h]
+    · have hne : f k' ≠ f k := fun e => h (inj k' k hk' hk e)
+      simp only [emap, List.map_cons, replace, h, hne, ↓reduceIte, List.cons.injEq, true_and] at ih ⊢
+      exact ih
+
+theorem erase_emap : ∀ (m : List (α × β)) (k : α), (∀ e ∈ m, P e.1) → P k →
+    erase (emap f g m) (f k) = emap f g (erase m k)
+  | [], _, _, _ => rfl
+  | (k', v') :: m, k, hm, hk => by
+    have hk' : P k' := hm (k', v') (by simp)
+    have ih := erase_emap m k (fun e he => hm e (by simp [he])) hk
+    by_cases h : k' = k
+    · simp [emap, erase, h]
+    · have hne : f k' ≠ f k := fun e => h (inj k' k hk' hk e)
+      simp only [emap, List.map_cons, erase, h, hne, ↓reduceIte, List.cons.injEq, true_and] at ih ⊢
+      exact ih
+
+theorem update_emap (max : Nat) (m : List (α × β)) (k : α) (v : β) (fl : Nat) (hm : ∀ e ∈ m, P e.1) (hk : P k) :
+    update max (emap f g m) (f k) (g v) fl = (emap f g (update max m k v fl).1, (update max m k v fl).2) := by
+  unfold update
+  by_cases hfl : fl > 2
+  · simp [hfl]
+  · simp only [hfl, ↓reduceIte]
+    rw [lookup_emap f g P inj m k hm hk]
+    cases hl : lookup m k with
+    | some x =>
+      simp only [Option.map_some]
+      by_cases h1 : fl = 1
+      · simp [h1]
+      · simp only [h1, ↓reduceIte]
+        rw [replace_emap f g P inj m k v hm hk]
+    | none =>
+      simp only [Option.map_none]
+      by_cases h2 : fl = 2
+      · simp [h2]
+      · simp only [h2, ↓reduceIte]
+        have hlen : (emap f g m).length = m.length := by simp [emap]
+        rw [hlen]
+        by_cases h3 : max ≤ m.length
+        · simp [h3]
+        · simp [h3, emap]
+
+omit inj
+
+end Assoc
+
+section AssocInv
+variable {α β : Type} [DecidableEq α]
+
+theorem mem_replace (Q : α × β → Prop) : ∀ (m : List (α × β)) (k : α) (v : β), (∀ e ∈ m, Q e) →
+    (∀ k', (∃ v', (k', v') ∈ m) → Q (k', v)) → ∀ e ∈ replace m k v, Q e
+  | [], _, _, _, _, e, he => by simp [replace] at he
+  | (k', v') :: m, k, v, hm, hnew, e, he => by
+    by_cases h : k' = k
+    · simp only [replace, h, ↓reduceIte, List.mem_cons] at he
+      rcases he with rfl | he
+      · exact hnew k ⟨v', by simp [h]⟩
+      · exact hm e (by simp [he])
+    · simp only [replace, h, ↓reduceIte, List.mem_cons] at he
+      rcases he with rfl | he
+      · exact hm _ (by simp)
+      · exact mem_replace Q m k v (fun e he => hm e (by simp [he]))
+          (fun k'' ⟨v'', h''⟩ => hnew k'' ⟨v'', by simp [h'']⟩) e he
+
+theorem mem_erase : ∀ (m : List (α × β)) (k : α) (e : α × β), e ∈ erase m k → e ∈ m
+  | [], _, _, he => by simp [erase] at he
+  | (k', v') :: m, k, e, he => by
+    by_cases h : k' = k
+    · simp only [erase, h, ↓reduceIte] at he
+      simp [he]
+    · simp only [erase, h, ↓reduceIte, List.mem_cons] at he
+      rcases he with rfl | he
+      · simp
+      · simp [mem_erase m k e he]
+
+theorem mem_update (Pk : α → Prop) (Pv : β → Prop) (max : Nat) (m : List (α × β)) (k : α) (v : β) (fl : Nat)
+    (hm : ∀ e ∈ m, Pk e.1 ∧ Pv e.2) (hk : Pk k) (hv : Pv v) :
+    ∀ e ∈ (update max m k v fl).1, Pk e.1 ∧ Pv e.2 := by
+  unfold update
+  by_cases hfl : fl > 2
+  · simpa [hfl] using hm
+  · simp only [hfl, ↓reduceIte]
+    cases hl : lookup m k with
+    | some x =>
+      by_cases h1 : fl = 1
+      · simpa [h1] using hm
+      · simp only [h1, ↓reduceIte]
+        exact mem_replace (fun e => Pk e.1 ∧ Pv e.2) m k v hm (fun k' ⟨v', h'⟩ => ⟨(hm _ h').1, hv⟩)
+    | none =>
+      by_cases h2 : fl = 2
+      · simpa [h2] using hm
+      · simp only [h2, ↓reduceIte]
+        by_cases h3 : max ≤ m.length
+        · simpa [h3] using hm
+        · simp only [h3, ↓reduceIte]
+          intro e he
+          rcases List.mem_append.mp he with he | he
+          · exact hm e he
+          · simp only [List.mem_singleton] at he
+            subst he
+            exact ⟨hk, hv⟩
+
+/-- with flags ANY the helper only fails when the map is full -/
+theorem update_any_code (max : Nat) (m : List (α × β)) (k : α) (v : β) :
+    (update max m k v 0).2 = 0 ∨ (update max m k v 0).2 = -E2BIG := by
+  unfold update
+  cases lookup m k <;> simp <;> split <;> simp
+
+theorem lookup_isSome_of_mem_keys : ∀ (m : List (α × β)) (k : α), lookup m k = none → ∀ e ∈ m, e.1 ≠ k
+  | [], _, _, e, he => by simp at he
+  | (k', v') :: m, k, h, e, he => by
+    by_cases hk : k' = k
+    · simp [lookup, hk] at h
+    · simp only [lookup, hk, ↓reduceIte] at h
+      simp only [List.mem_cons] at he
+      rcases he with rfl | he
+      · exact hk
+      · exact lookup_isSome_of_mem_keys m k h e he
+
+end AssocInv
+
+theorem lookup_mem {α β : Type} [DecidableEq α] : ∀ (m : List (α × β)) (k : α) (v : β), lookup m k = some v →
+    ∃ e ∈ m, e.2 = v
+  | [], _, _, h => by simp [lookup] at h
+  | (k', v') :: m, k, v, h => by
+    by_cases hk : k' = k
+    · simp only [lookup, hk, ↓reduceIte, Option.some.injEq] at h
+      exact ⟨(k', v'), by simp, h⟩
+    · simp only [lookup, hk, ↓reduceIte] at h
+      obtain ⟨e, he, hv⟩ := lookup_mem m k v h
+      exact ⟨e, by simp [he], hv⟩
+
+theorem fits_zero (f : Fmt) : f.fits 0 = true := by cases f <;> decide
+
+theorem allFit_zero : ∀ (fs : List Fmt), allFit fs (fs.map fun _ => (0 : Int)) = true
+  | [] => rfl
+  | f :: fs => by simp [allFit, fits_zero, allFit_zero fs]
+
+/-! ### the two images on the program stack -/
+
+theorem roundUp8_ge (n : Nat) : n ≤ roundUp8 n := by unfold roundUp8; omega
+
+/-- **dict_images_disjoint**: `Dict.__set_name__` puts the value image entirely below the key image, both
+inside the stack (`r10 + value_offset + V ≤ r10 + key_offset`, `r10 + key_offset + K ≤ r10`) -/
+theorem dict_images_disjoint (D : DictDecl) (hv : D.valid = true) :
+    D.valBase + D.V ≤ D.keyBase ∧ D.keyBase + D.K ≤ stackSize := by
+  simp only [DictDecl.valid, Bool.and_eq_true, decide_eq_true_eq] at hv
+  have h1 := roundUp8_ge (D.depth0 + D.K)
+  have h2 := roundUp8_ge (D.keyDepth + D.V)
+  simp only [DictDecl.keyBase, DictDecl.valBase, DictDecl.valDepth, DictDecl.keyDepth] at *
+  omega
+
+/-- **py_prog_same_image**: for the same member values, the key the program leaves at `r10 + key_offset`
+and the value at `r10 + value_offset` (after setting all members of key and value, in this order, on any
+stack) are byte for byte what Python's `Key()` / `Value()` objects hold in `.data` -/
+theorem py_prog_same_image (D : DictDecl) (hv : D.valid = true) (stack0 : Bytes) (hs : stack0.length = stackSize)
+    (k v : List Int) (hk : allFit D.keyFmts k = true) (hvv : allFit D.valFmts v = true) :
+    let st := progStruct D.valBase D.valFmts v (progStruct D.keyBase D.keyFmts k stack0)
+    some (slice st D.keyBase (D.keyBase + D.K)) = pyStruct D.keyFmts k ∧
+    some (slice st D.valBase (D.valBase + D.V)) = pyStruct D.valFmts v ∧
+    some (slice (progStruct D.keyBase D.keyFmts k stack0) D.keyBase (D.keyBase + D.K)) = pyStruct D.keyFmts k := by
+  obtain ⟨g1, g2⟩ := dict_images_disjoint D hv
+  have lk := allFit_length _ _ hk
+  have lv := allFit_length _ _ hvv
+  have eK : (encStruct D.keyFmts k).length = D.K := length_encStruct _ _ lk
+  have eV : (encStruct D.valFmts v).length = D.V := length_encStruct _ _ lv
+  have p1 : progStruct D.keyBase D.keyFmts k stack0 = setRange stack0 D.keyBase (encStruct D.keyFmts k) :=
+    progStruct_eq _ _ _ _ lk (by rw [hs]; exact g2)
+  have l1 : (setRange stack0 D.keyBase (encStruct D.keyFmts k)).length = stackSize := by
+    rw [length_setRange _ _ _ (by rw [eK, hs]; exact g2), hs]
+  have s1 : slice (setRange stack0 D.keyBase (encStruct D.keyFmts k)) D.keyBase (D.keyBase + D.K) = encStruct D.keyFmts k := by
+    have := slice_setRange_same stack0 D.keyBase (encStruct D.keyFmts k) (by rw [eK, hs]; exact g2)
+    rwa [eK] at this
+  have hle : D.valBase + D.V ≤ stackSize := by omega
+  have p2 : progStruct D.valBase D.valFmts v (setRange stack0 D.keyBase (encStruct D.keyFmts k)) =
+      setRange (setRange stack0 D.keyBase (encStruct D.keyFmts k)) D.valBase (encStruct D.valFmts v) :=
+    progStruct_eq _ _ _ _ lv (by rw [l1]; exact hle)
+  intro st
+  have hst : st = setRange (setRange stack0 D.keyBase (encStruct D.keyFmts k)) D.valBase (encStruct D.valFmts v) := by
+    show progStruct D.valBase D.valFmts v (progStruct D.keyBase D.keyFmts k stack0) = _
+    rw [p1, p2]
+  rw [pyStruct_fit _ _ hk, pyStruct_fit _ _ hvv, p1, s1, hst]
+  refine ⟨?_, ?_, rfl⟩
+  · rw [slice_setRange_disjoint _ _ _ _ _ (by rw [eV, l1]; exact hle) (Or.inr (by rw [eV]; exact g1)) (by omega), s1]
+  · have := slice_setRange_same (setRange stack0 D.keyBase (encStruct D.keyFmts k)) D.valBase (encStruct D.valFmts v)
+      (by rw [eV, l1]; exact hle)
+    rw [eV] at this
+    rw [this]
+
+/-! ### refinement: the implementation behaves like the abstract dictionary of member tuples -/
+
+/-- the kernel map is the byte image of the abstract dictionary, whose tuples are all in range -/
+def Rel (D : DictDecl) (m : KMap) (a : AMap) : Prop :=
+  m = emap (encStruct D.keyFmts) (encStruct D.valFmts) a ∧
+  ∀ e ∈ a, allFit D.keyFmts e.1 = true ∧ allFit D.valFmts e.2 = true
+
+/-- operations the theorem speaks about: tuples have one value per member; what the *program* stores
+fits the member's format (a store of a wider value truncates: C01/C07); Python values are arbitrary -/
+def OpOk (D : DictDecl) : Op → Prop
+  | .pySet k v => k.length = D.keyFmts.length ∧ v.length = D.valFmts.length
+  | .pyGet k => k.length = D.keyFmts.length
+  | .pyDel k => k.length = D.keyFmts.length
+  | .pyPop k => k.length = D.keyFmts.length
+  | .pyIter => True
+  | .prUpdate k v _ => allFit D.keyFmts k = true ∧ allFit D.valFmts v = true
+  | .prLookup k => allFit D.keyFmts k = true
+  | .prModify k v => allFit D.keyFmts k = true ∧ allFit D.valFmts v = true
+
+/-- observable agreement; the only tolerated difference is the excluded class: iterating an empty Dict
+(the abstract dictionary yields no key, the implementation raises `RuntimeError`) -/
+def OutRel (abs conc : Out) : Prop := conc = abs ∨ (abs = .keys [] ∧ conc = .runtimeError)
+
+/-- pointwise `OutRel` of two observation lists of the same length -/
+inductive OutsRel : List Out → List Out → Prop where
+  | nil : OutsRel [] []
+  | cons {a c : Out} {as cs : List Out} : OutRel a c → OutsRel as cs → OutsRel (a :: as) (c :: cs)
+
+theorem emap_keys_read (D : DictDecl) : ∀ (a : AMap), (∀ e ∈ a, allFit D.keyFmts e.1 = true ∧ allFit D.valFmts e.2 = true) →
+    (emap (encStruct D.keyFmts) (encStruct D.valFmts) a).map (fun e => readMembers 0 D.keyFmts e.1) = a.map Prod.fst
+  | [], _ => rfl
+  | e :: a, h => by
+    have := emap_keys_read D a (fun x hx => h x (by simp [hx]))
+    simp only [emap, List.map_cons, List.map_map] at this ⊢
+    rw [struct_roundtrip _ _ (h e (by simp)).1]
+    simp only [List.cons.injEq, true_and]
+    exact this
+
+/-- regenerated from /repo: `TheDict.pop` issues `BPF_MAP_LOOKUP_AND_DELETE_ELEM` -/
+theorem pop_deletes : dict_pop_cmd = bpf_LOOKUP_DELETE := by decide
+
+theorem step_refines (D : DictDecl) (hv : D.valid = true) (stack0 : Bytes) (hs : stack0.length = stackSize)
+    (m : KMap) (a : AMap) (hR : Rel D m a) (op : Op) (hop : OpOk D op) :
+    Rel D (cStep D stack0 m op).1 (aStep D a op).1 ∧ OutRel (aStep D a op).2 (cStep D stack0 m op).2 := by
+  obtain ⟨hm, hfit⟩ := hR
+  subst hm
+  have hfitK : ∀ e ∈ a, allFit D.keyFmts e.1 = true := fun e he => (hfit e he).1
+  have inj := encStruct_inj D.keyFmts
+  have LK := lookup_emap (encStruct D.keyFmts) (encStruct D.valFmts) (fun k => allFit D.keyFmts k = true) inj a
+  have RP := replace_emap (encStruct D.keyFmts) (encStruct D.valFmts) (fun k => allFit D.keyFmts k = true) inj a
+  have ER := erase_emap (encStruct D.keyFmts) (encStruct D.valFmts) (fun k => allFit D.keyFmts k = true) inj a
+  have UP := fun k v fl => update_emap (encStruct D.keyFmts) (encStruct D.valFmts) (fun k => allFit D.keyFmts k = true) inj
+    D.maxEntries a k v fl hfitK
+  have INV := fun k v fl => mem_update (fun k => allFit D.keyFmts k = true) (fun v => allFit D.valFmts v = true)
+    D.maxEntries a k v fl hfit
+  cases op with
+  | pySet k v =>
+    obtain ⟨lk, lv⟩ := hop
+    by_cases hk : allFit D.keyFmts k = true
+    · by_cases hvv : allFit D.valFmts v = true
+      · simp only [cStep, aStep, pyStruct_fit _ _ hk, pyStruct_fit _ _ hvv, hk, hvv, Bool.and_self, ↓reduceIte]
+        rw [UP k v 0 hk]
+        refine ⟨⟨rfl, INV k v 0 hk hvv⟩, Or.inl ?_⟩
+        rcases update_any_code D.maxEntries a k v with h | h
+        · simp [h]
+        · simp [h, E2BIG]
+      · have hvf : allFit D.valFmts v = false := by simpa using hvv
+        simp only [cStep, aStep, pyStruct_fit _ _ hk, pyStruct_unfit _ _ lv hvf, hk, hvf, Bool.and_false,
+          Bool.false_eq_true, ↓reduceIte]
+        exact ⟨⟨rfl, hfit⟩, Or.inl rfl⟩
+    · have hkf : allFit D.keyFmts k = false := by simpa using hk
+      simp only [cStep, aStep, pyStruct_unfit _ _ lk hkf, hkf, Bool.false_and, Bool.false_eq_true, ↓reduceIte]
+      exact ⟨⟨rfl, hfit⟩, Or.inl rfl⟩
+  | pyGet k =>
+    by_cases hk : allFit D.keyFmts k = true
+    · simp only [cStep, aStep, pyStruct_fit _ _ hk, hk, ↓reduceIte, LK k hfitK hk]
+      cases hl : lookup a k with
+      | none => exact ⟨⟨rfl, hfit⟩, Or.inl rfl⟩
+      | some v =>
+        have hvf : allFit D.valFmts v = true := by
+          obtain ⟨e, he, rfl⟩ := lookup_mem a k v hl
+          exact (hfit e he).2
+        simp only [Option.map_some, struct_roundtrip _ _ hvf]
+        exact ⟨⟨rfl, hfit⟩, Or.inl rfl⟩
+    · have hkf : allFit D.keyFmts k = false := by simpa using hk
+      simp only [cStep, aStep, pyStruct_unfit _ _ hop hkf, hkf, Bool.false_eq_true, ↓reduceIte]
+      exact ⟨⟨rfl, hfit⟩, Or.inl rfl⟩
+  | pyDel k =>
+    by_cases hk : allFit D.keyFmts k = true
+    · simp only [cStep, aStep, pyStruct_fit _ _ hk, hk, ↓reduceIte, LK k hfitK hk]
+      cases hl : lookup a k with
+      | none => exact ⟨⟨rfl, hfit⟩, Or.inl rfl⟩
+      | some v =>
+        simp only [Option.map_some, ER k hfitK hk]
+        exact ⟨⟨rfl, fun e he => hfit e (mem_erase a k e he)⟩, Or.inl rfl⟩
+    · have hkf : allFit D.keyFmts k = false := by simpa using hk
+      simp only [cStep, aStep, pyStruct_unfit _ _ hop hkf, hkf, Bool.false_eq_true, ↓reduceIte]
+      exact ⟨⟨rfl, hfit⟩, Or.inl rfl⟩
+  | pyPop k =>
+    by_cases hk : allFit D.keyFmts k = true
+    · simp only [cStep, aStep, pyStruct_fit _ _ hk, hk, ↓reduceIte, LK k hfitK hk, pop_deletes]
+      cases hl : lookup a k with
+      | none => exact ⟨⟨rfl, hfit⟩, Or.inl rfl⟩
+      | some v =>
+        have hvf : allFit D.valFmts v = true := by
+          obtain ⟨e, he, rfl⟩ := lookup_mem a k v hl
+          exact (hfit e he).2
+        simp only [Option.map_some, ER k hfitK hk, struct_roundtrip _ _ hvf]
+        exact ⟨⟨rfl, fun e he => hfit e (mem_erase a k e he)⟩, Or.inl rfl⟩
+    · have hkf : allFit D.keyFmts k = false := by simpa using hk
+      simp only [cStep, aStep, pyStruct_unfit _ _ hop hkf, hkf, Bool.false_eq_true, ↓reduceIte]
+      exact ⟨⟨rfl, hfit⟩, Or.inl rfl⟩
+  | pyIter =>
+    cases a with
+    | nil => exact ⟨⟨rfl, hfit⟩, Or.inr ⟨rfl, rfl⟩⟩
+    | cons e a =>
+      have hne : (emap (encStruct D.keyFmts) (encStruct D.valFmts) (e :: a)).isEmpty = false := by simp [emap]
+      simp only [cStep, aStep, hne, Bool.false_eq_true, ↓reduceIte]
+      refine ⟨⟨rfl, hfit⟩, Or.inl ?_⟩
+      rw [emap_keys_read D (e :: a) hfit]
+  | prUpdate k v fl =>
+    obtain ⟨hk, hvv⟩ := hop
+    obtain ⟨i1, i2, _⟩ := py_prog_same_image D hv stack0 hs k v hk hvv
+    rw [pyStruct_fit _ _ hk] at i1
+    rw [pyStruct_fit _ _ hvv] at i2
+    simp only [cStep, aStep, Option.some.inj i1, Option.some.inj i2]
+    rw [UP k v fl hk]
+    exact ⟨⟨rfl, INV k v fl hk hvv⟩, Or.inl rfl⟩
+  | prLookup k =>
+    have hvv0 : allFit D.valFmts (D.valFmts.map fun _ => (0 : Int)) = true := allFit_zero _
+    obtain ⟨_, _, i3⟩ := py_prog_same_image D hv stack0 hs k _ hop hvv0
+    rw [pyStruct_fit _ _ hop] at i3
+    simp only [cStep, aStep, Option.some.inj i3, LK k hfitK hop]
+    cases hl : lookup a k with
+    | none => exact ⟨⟨rfl, hfit⟩, Or.inl rfl⟩
+    | some v =>
+      have hvf : allFit D.valFmts v = true := by
+        obtain ⟨e, he, rfl⟩ := lookup_mem a k v hl
+        exact (hfit e he).2
+      simp only [Option.map_some, struct_roundtrip _ _ hvf]
+      exact ⟨⟨rfl, hfit⟩, Or.inl rfl⟩
+  | prModify k v =>
+    obtain ⟨hk, hvv⟩ := hop
+    obtain ⟨_, _, i3⟩ := py_prog_same_image D hv stack0 hs k v hk hvv
+    rw [pyStruct_fit _ _ hk] at i3
+    simp only [cStep, aStep, Option.some.inj i3, LK k hfitK hk]
+    cases hl : lookup a k with
+    | none => exact ⟨⟨rfl, hfit⟩, Or.inl rfl⟩
+    | some v0 =>
+      have hvf : allFit D.valFmts v0 = true := by
+        obtain ⟨e, he, rfl⟩ := lookup_mem a k v0 hl
+        exact (hfit e he).2
+      have l0 := allFit_length _ _ hvf
+      have lv := allFit_length _ _ hvv
+      -- the stores through r0 overwrite the whole looked-up value in place
+      have hin : progStruct 0 D.valFmts v (encStruct D.valFmts v0) = encStruct D.valFmts v := by
+        rw [progStruct_eq 0 D.valFmts v _ lv (by rw [length_encStruct _ _ l0]; omega)]
+        simp [setRange_eq, length_encStruct _ _ l0, length_encStruct _ _ lv]
+      simp only [Option.map_some, hin, struct_roundtrip _ _ hvf, RP k v hfitK hk]
+      refine ⟨⟨rfl, ?_⟩, Or.inl rfl⟩
+      exact mem_replace (fun e => allFit D.keyFmts e.1 = true ∧ allFit D.valFmts e.2 = true) a k v hfit
+        (fun k' ⟨v', h'⟩ => ⟨(hfit _ h').1, hvv⟩)
+
+/-- **refinement** (partial: iterating an empty Dict excluded through `OutRel`): any sequence of Python-side and
+program-side operations on a Dict, started from related states (e.g. both empty), produces the observations of
+the abstract dictionary of member tuples and ends in related states — induction over the operation list. -/
+theorem refinement_partial (D : DictDecl) (hv : D.valid = true) (stack0 : Bytes) (hs : stack0.length = stackSize) :
+    ∀ (ops : List Op) (m : KMap) (a : AMap), Rel D m a → (∀ op ∈ ops, OpOk D op) →
+      Rel D (cRun D stack0 m ops).1 (aRun D a ops).1 ∧
+      OutsRel (aRun D a ops).2 (cRun D stack0 m ops).2
+  | [], m, a, hR, _ => ⟨hR, OutsRel.nil⟩
+  | op :: ops, m, a, hR, hok => by
+    obtain ⟨h1, h2⟩ := step_refines D hv stack0 hs m a hR op (hok op (by simp))
+    obtain ⟨h3, h4⟩ := refinement_partial D hv stack0 hs ops _ _ h1 (fun o ho => hok o (by simp [ho]))
+    exact ⟨h3, OutsRel.cons h2 h4⟩
+
+/-- the empty kernel map is the image of the empty dictionary -/
+theorem rel_empty (D : DictDecl) : Rel D [] [] := ⟨rfl, by simp⟩
+
+/-- **lookup_absent_else**: a program lookup of a key that is absent from the dictionary takes the Else branch
+(and leaves the map alone), whatever was done before from either side -/
+theorem lookup_absent_else (D : DictDecl) (hv : D.valid = true) (stack0 : Bytes) (hs : stack0.length = stackSize)
+    (m : KMap) (a : AMap) (hR : Rel D m a) (k : List Int) (hk : allFit D.keyFmts k = true) (habs : lookup a k = none) :
+    cStep D stack0 m (.prLookup k) = (m, .els) := by
+  obtain ⟨hm, hfit⟩ := hR
+  subst hm
+  have hvv0 : allFit D.valFmts (D.valFmts.map fun _ => (0 : Int)) = true := allFit_zero _
+  obtain ⟨_, _, i3⟩ := py_prog_same_image D hv stack0 hs k _ hk hvv0
+  rw [pyStruct_fit _ _ hk] at i3
+  have LK := lookup_emap (encStruct D.keyFmts) (encStruct D.valFmts) (fun k => allFit D.keyFmts k = true)
+    (encStruct_inj D.keyFmts) a k (fun e he => (hfit e he).1) hk
+  simp only [cStep, Option.some.inj i3, LK, habs, Option.map_none]
+
+/-- present keys are found with the member values the other side stored -/
+theorem lookup_present_found (D : DictDecl) (hv : D.valid = true) (stack0 : Bytes) (hs : stack0.length = stackSize)
+    (m : KMap) (a : AMap) (hR : Rel D m a) (k v : List Int) (hk : allFit D.keyFmts k = true) (hp : lookup a k = some v) :
+    cStep D stack0 m (.prLookup k) = (m, .found v) := by
+  have h := step_refines D hv stack0 hs m a hR (.prLookup k) hk
+  have hc : aStep D a (.prLookup k) = (a, .found v) := by simp [aStep, hp]
+  obtain ⟨⟨hm, _⟩, ho⟩ := h
+  rw [hc] at ho hm
+  rcases ho with ho | ⟨ho, _⟩
+  · have e1 : (cStep D stack0 m (.prLookup k)).1 = m := by
+      simp only [cStep]; split <;> rfl
+    exact Prod.ext e1 ho
+  · cases ho
+
+/-- the strict statement (observations *equal* to the abstract dictionary's) fails on the excluded class:
+iterating an empty Dict raises `RuntimeError` where the dictionary has no key to yield -/
+theorem iter_empty_refuted :
+    let D : DictDecl := ⟨[.I], [.q], 0, 4⟩
+    D.valid = true ∧ (cStep D (zeros stackSize) [] .pyIter).2 = .runtimeError ∧ (aStep D [] .pyIter).2 = .keys [] := by
+  decide
+
+/-! ### hash-map variables -/
+
+section AssocMore
+variable {α β : Type} [DecidableEq α]
+
+theorem lookup_replace_ne : ∀ (m : List (α × β)) (k k' : α) (v : β), k ≠ k' → lookup (replace m k v) k' = lookup m k'
+  | [], _, _, _, _ => rfl
+  | (k0, v0) :: m, k, k', v, h => by
+    have ih := lookup_replace_ne m k k' v h
+    by_cases h0 : k0 = k
+    · subst h0
+      simp [replace, lookup, h]
+    · by_cases h1 : k0 = k'
+      · subst h1
+        simp [replace, lookup, h0]
+      · simp [replace, lookup, h0, h1, ih]
+
+theorem lookup_replace_same : ∀ (m : List (α × β)) (k : α) (v : β), lookup m k ≠ none → lookup (replace m k v) k = some v
+  | [], _, _, h => by simp [lookup] at h
+  | (k0, v0) :: m, k, v, h => by
+    by_cases h0 : k0 = k
+    · simp [replace, lookup, h0]
+    · simp only [lookup, h0, ↓reduceIte] at h
+      simp [replace, lookup, h0, lookup_replace_same m k v h]
+
+theorem length_replace : ∀ (m : List (α × β)) (k : α) (v : β), (replace m k v).length = m.length
+  | [], _, _ => rfl
+  | (k0, v0) :: m, k, v => by
+    by_cases h0 : k0 = k <;> simp [replace, h0, length_replace m k v]
+
+theorem lookup_append_single : ∀ (m : List (α × β)) (k k' : α) (v : β),
+    lookup (m ++ [(k, v)]) k' = match lookup m k' with | some x => some x | none => if k = k' then some v else none
+  | [], k, k', v => by simp [lookup]
+  | (k0, v0) :: m, k, k', v => by
+    by_cases h0 : k0 = k'
+    · simp [lookup, h0]
+    · simp [lookup, h0, lookup_append_single m k k' v]
+
+theorem lookup_update_ne (max : Nat) (m : List (α × β)) (k k' : α) (v : β) (fl : Nat) (h : k ≠ k') :
+    lookup (update max m k v fl).1 k' = lookup m k' := by
+  unfold update
+  split
+  · rfl
+  · split
+    · split
+      · rfl
+      · exact lookup_replace_ne m k k' v h
+    · split
+      · rfl
+      · split
+        · rfl
+        · rw [lookup_append_single]
+          cases lookup m k' <;> simp [h]
+
+/-- with flags ANY the update succeeds when the key is present or the map has room, and then holds the value -/
+theorem lookup_update_same (max : Nat) (m : List (α × β)) (k : α) (v : β)
+    (h : lookup m k ≠ none ∨ m.length < max) :
+    lookup (update max m k v 0).1 k = some v ∧ (update max m k v 0).1.length ≤ m.length + 1 := by
+  have e0 : ¬ ((0 : Nat) > 2) := by decide
+  have e1 : ¬ ((0 : Nat) = 1) := by decide
+  have e2 : ¬ ((0 : Nat) = 2) := by decide
+  unfold update
+  cases hl : lookup m k with
+  | some x =>
+    simp only [e0, e1, ↓reduceIte]
+    exact ⟨lookup_replace_same m k v (by simp [hl]), by rw [length_replace]; omega⟩
+  | none =>
+    have hroom : ¬ max ≤ m.length := by
+      rcases h with h | h
+      · exact absurd hl h
+      · omega
+    simp only [e0, e2, hroom, ↓reduceIte]
+    refine ⟨?_, by simp⟩
+    rw [lookup_append_single, hl]
+    simp
+
+end AssocMore
+
+theorem max_ord : hv_max_ordinal = 255 := by decide
+
+theorem pyKey_eq (i : Nat) (hi : i + 1 ≤ hv_max_ordinal) : pyKey i = some (progKey i) := by
+  simp [pyKey, progKey, hi]
+
+/-- **distinct ordinals ⇒ distinct keys** (on both sides: Python packs the ordinal, the program stores it) -/
+theorem key_ne (i j : Nat) (hi : i + 1 ≤ hv_max_ordinal) (hj : j + 1 ≤ hv_max_ordinal) (h : i ≠ j) :
+    progKey i ≠ progKey j := by
+  rw [max_ord] at hi hj
+  intro heq
+  have h1 : (UInt8.ofNat (i + 1)).toNat = (UInt8.ofNat (j + 1)).toNat := by
+    simp only [progKey, List.cons.injEq, and_true] at heq
+    rw [heq]
+  simp at h1
+  omega
+
+/-- the variable an operation is about -/
+def target : HOp → Option Nat
+  | .load => none
+  | .pyGet i | .pySet i _ _ | .prGet i | .prSet i _ | .prAdd i _ => some i
+
+/-- **hashvar_cells_independent**: an operation on one variable, from either side, never changes the cell of
+another one (distinct ordinals ⇒ distinct 1-byte keys ⇒ independent cells) -/
+theorem hashvar_cells_independent (vars : List HVar) (m : KMap) (op : HOp) (i j : Nat)
+    (ht : target op = some i) (hij : i ≠ j) (hi : i + 1 ≤ hv_max_ordinal) (hj : j + 1 ≤ hv_max_ordinal) :
+    lookup (hvStep vars m op).1 (progKey j) = lookup m (progKey j) := by
+  have hne := key_ne i j hi hj hij
+  cases op with
+  | load => cases ht
+  | pyGet i' =>
+    cases ht
+    simp only [hvStep]
+    repeat' split
+    all_goals rfl
+  | prGet i' =>
+    cases ht
+    simp only [hvStep]
+    repeat' split
+    all_goals rfl
+  | pySet i' v fl =>
+    cases ht
+    simp only [hvStep, hvPySet, pyKey_eq i hi]
+    repeat' split
+    all_goals first | rfl | exact lookup_update_ne _ _ _ _ _ _ hne
+  | prSet i' v =>
+    cases ht
+    simp only [hvStep]
+    exact lookup_update_ne _ _ _ _ _ _ hne
+  | prAdd i' c =>
+    cases ht
+    simp only [hvStep]
+    repeat' split
+    all_goals first | rfl | exact lookup_update_ne _ _ _ _ _ _ hne
+
+/-- a default `HashMap.load` can store: an integer in the 64-bit range of the variable's signedness -/
+def okDefault (x : HVar) : Bool :=
+  !x.defaultIsFloat && (if x.fmt.signed then fitsS 8 x.default else fitsU 8 x.default)
+
+theorem pySet_ok (vars : List HVar) (m : KMap) (i : Nat) (x : HVar) (v : Int) (hx : vars[i]? = some x)
+    (hi : i + 1 ≤ hv_max_ordinal) (hv : (if x.fmt.signed then fitsS 8 v else fitsU 8 v) = true) :
+    hvPySet vars m i v false = ((update vars.length m (progKey i) (enc64 v) 0).1, .ok) := by
+  simp only [hvPySet, hx, pyKey_eq i hi, Bool.false_eq_true, ↓reduceIte, hv]
+
+theorem load_inv (vars : List HVar) (hn : vars.length ≤ hv_max_ordinal) (hok : ∀ x ∈ vars, okDefault x = true) :
+    ∀ (rest : List HVar) (i : Nat) (m : KMap), vars.drop i = rest → m.length ≤ i →
+      (∀ t x, t < i → vars[t]? = some x → lookup m (progKey t) = some (enc64 x.default)) →
+      (hvLoadFrom vars m i rest).2 = .ok ∧
+      ∀ t x, vars[t]? = some x → lookup (hvLoadFrom vars m i rest).1 (progKey t) = some (enc64 x.default)
+  | [], i, m, hd, _, hinv => by
+    refine ⟨rfl, fun t x hx => hinv t x ?_ hx⟩
+    have h1 : vars.length ≤ i := by
+      have := congrArg List.length hd
+      simp at this; omega
+    have h2 : t < vars.length := by
+      rcases List.getElem?_eq_some_iff.mp hx with ⟨h, _⟩; exact h
+    omega
+  | x :: rest, i, m, hd, hlen, hinv => by
+    have hi : i < vars.length := by
+      have := congrArg List.length hd
+      simp at this; omega
+    have hx : vars[i]? = some x := by
+      have := congrArg (fun l => l[0]?) hd
+      simpa using this
+    have hmem : x ∈ vars := List.mem_of_getElem? hx
+    have hokx := hok x hmem
+    simp only [okDefault, Bool.and_eq_true, Bool.not_eq_true'] at hokx
+    have hio : i + 1 ≤ hv_max_ordinal := by omega
+    have hset := pySet_ok vars m i x x.default hx hio hokx.2
+    have hup := lookup_update_same vars.length m (progKey i) (enc64 x.default) (Or.inr (by omega))
+    simp only [hvLoadFrom, hokx.1, hset]
+    have hd' : vars.drop (i + 1) = rest := by
+      have := congrArg List.tail hd
+      simpa using this
+    apply load_inv vars hn hok rest (i + 1) _ hd' (by omega)
+    intro t y ht hy
+    by_cases hti : t = i
+    · subst hti
+      rw [hx] at hy; cases hy
+      exact hup.1
+    · have htl : t + 1 ≤ hv_max_ordinal := by
+        rcases List.getElem?_eq_some_iff.mp hy with ⟨h, _⟩; omega
+      rw [lookup_update_ne _ _ _ _ _ _ (key_ne i t hio htl (Ne.symm hti))]
+      exact hinv t y (by omega) hy
+
+/-- **hashvar_default**: after `HashMap.load` (at most 255 variables, integer defaults) every variable's cell
+holds its declared default: `load` succeeds and both sides read the default through the variable's format -/
+theorem hashvar_default (vars : List HVar) (hn : vars.length ≤ hv_max_ordinal) (hok : ∀ x ∈ vars, okDefault x = true) :
+    (hvStep vars [] .load).2 = .ok ∧
+    ∀ i x, vars[i]? = some x →
+      lookup (hvStep vars [] .load).1 (progKey i) = some (enc64 x.default) ∧
+      (hvStep vars (hvStep vars [] .load).1 (.prGet i)).2 = .value (x.fmt.view (enc64 x.default)) := by
+  have h := load_inv vars hn hok vars 0 [] (by simp) (by simp) (by intro t x ht; omega)
+  refine ⟨h.1, fun i x hx => ⟨h.2 i x hx, ?_⟩⟩
+  have := h.2 i x hx
+  simp only [hvStep] at this ⊢
+  simp only [hx, this]
+
+/-! #### a value written on one side is read unchanged on the other -/
+
+theorem encLE_take : ∀ (n m x : Nat), n ≤ m → (encLE m x).take n = encLE n x
+  | 0, _, _, _ => by simp [encLE]
+  | n + 1, 0, _, h => by omega
+  | n + 1, m + 1, x, h => by simp [encLE, encLE_take n m (x / 256) (by omega)]
+
+theorem encLE_congr : ∀ (n a b : Nat), a % 256 ^ n = b % 256 ^ n → encLE n a = encLE n b
+  | 0, _, _, _ => rfl
+  | n + 1, a, b, h => by
+    have h1 : a % 256 = b % 256 := by
+      have := congrArg (· % 256) h
+      simp only [Nat.pow_succ, Nat.mod_mul_left_mod] at this
+      exact this
+    have h2 : a / 256 % 256 ^ n = b / 256 % 256 ^ n := by
+      have e : ∀ x : Nat, x / 256 % 256 ^ n = x % 256 ^ (n + 1) / 256 := by
+        intro x
+        rw [Nat.pow_succ, Nat.mul_comm, Nat.mod_mul_right_div_self]
+      rw [e a, e b, h]
+    simp [encLE, h1, encLE_congr n _ _ h2]
+
+theorem ofSigned_low (f : Fmt) (v : Int) : ofSigned 8 v % 256 ^ f.size = ofSigned f.size v % 256 ^ f.size := by
+  cases f <;> simp [ofSigned, Fmt.size] <;> omega
+
+/-- the low bytes of the 8-byte cell are the member image of the same value -/
+theorem take_enc64 (f : Fmt) (v : Int) : (enc64 v).take f.size = f.enc v := by
+  unfold enc64 Fmt.enc
+  rw [encLE_take f.size 8 _ (by cases f <;> decide)]
+  exact encLE_congr _ _ _ (ofSigned_low f v)
+
+theorem view_enc64 (f : Fmt) (v : Int) (h : f.fits v = true) : (HFmt.plain f).view (enc64 v) = v := by
+  simp only [HFmt.view, take_enc64, dec_enc f v h]
+
+theorem fitsS_iff (n : Nat) (v : Int) : fitsS n v = true ↔ -(2 ^ (8 * n - 1)) ≤ v ∧ v < 2 ^ (8 * n - 1) := by
+  simp [fitsS]
+
+theorem fitsU_iff (n : Nat) (v : Int) : fitsU n v = true ↔ 0 ≤ v ∧ v < 2 ^ (8 * n) := by
+  simp [fitsU]
+
+theorem fits64 (f : Fmt) (v : Int) (h : f.fits v = true) : (if f.signed then fitsS 8 v else fitsU 8 v) = true := by
+  cases f <;> simp only [Fmt.fits, Fmt.signed, ↓reduceIte, Bool.false_eq_true, fitsS_iff, fitsU_iff] at h ⊢ <;>
+    simp only [Fmt.size, Nat.reduceMul, Nat.reduceSub, Int.reducePow, Int.reduceNeg] at h ⊢ <;> omega
+
+/-- **Python → program**: a value of the variable's format written by `HashGlobalVarDesc.__set__` is what the
+program's read of the variable yields -/
+theorem hashvar_py_to_prog (vars : List HVar) (m : KMap) (i : Nat) (x : HVar) (f : Fmt) (v : Int)
+    (hx : vars[i]? = some x) (hf : x.fmt = .plain f) (hi : i + 1 ≤ hv_max_ordinal) (hfit : f.fits v = true)
+    (hroom : lookup m (progKey i) ≠ none ∨ m.length < vars.length) :
+    (hvStep vars m (.pySet i v false)).2 = .ok ∧
+    (hvStep vars (hvStep vars m (.pySet i v false)).1 (.prGet i)).2 = .value v := by
+  have h64 : (if x.fmt.signed then fitsS 8 v else fitsU 8 v) = true := by
+    rw [hf]; exact fits64 f v hfit
+  have hset := pySet_ok vars m i x v hx hi h64
+  have hup := lookup_update_same vars.length m (progKey i) (enc64 v) hroom
+  simp only [hvStep, hset, hx, hup.1, hf, view_enc64 f v hfit, and_self]
+
+/-- **program → Python**: a value of the variable's format stored by the program is what
+`HashGlobalVarDesc.__get__` returns -/
+theorem hashvar_prog_to_py (vars : List HVar) (m : KMap) (i : Nat) (x : HVar) (f : Fmt) (v : Int)
+    (hx : vars[i]? = some x) (hf : x.fmt = .plain f) (hi : i + 1 ≤ hv_max_ordinal) (hfit : f.fits v = true)
+    (hroom : lookup m (progKey i) ≠ none ∨ m.length < vars.length) :
+    (hvStep vars (hvStep vars m (.prSet i v)).1 (.pyGet i)).2 = .value v := by
+  have hup := lookup_update_same vars.length m (progKey i) (enc64 v) hroom
+  simp only [hvStep, hx, pyKey_eq i hi, hup.1, hf, view_enc64 f v hfit]
+
+/-- fixed-point (`"x"`) variables do not satisfy this from Python: after the program stored 1.5 (150000 scaled)
+Python cannot read the variable (`IndexError`), and Python cannot store 1.5 (`struct.error`) -/
+theorem hashvar_fixed_refuted :
+    let vars : List HVar := [⟨.fixed, 0, false⟩]
+    let m := (hvStep vars [] .load).1
+    (hvStep vars (hvStep vars m (.prSet 0 150000)).1 (.pyGet 0)).2 = .indexError ∧
+    (hvStep vars (hvStep vars m (.prSet 0 150000)).1 (.prGet 0)).2 = .value 150000 ∧
+    (hvStep vars m (.pySet 0 150000 true)).2 = .structError := by
+  decide
+
+/-! ### non-vacuity: the hypotheses hold on concrete non-trivial declarations and histories -/
+
+/-- the declaration probed in the kernel (notes/probes/p6.py): 15-byte key, 13-byte value -/
+def exD : DictDecl := ⟨[.q, .I, .h, .B], [.Q, .i, .b], 12, 8⟩
+
+example : exD.valid = true := by decide
+example : (exD.K, exD.V, exD.keyDepth, exD.valDepth) = (15, 13, 32, 48) := by decide
+example : offsets 0 exD.keyFmts = [0, 8, 12, 14] ∧ layoutOk 0 [.B, .I] = false := by decide
+example : OpOk exD (.prUpdate [10, 20, 30, 40] [18364758544493064720, -5, -6] 0) := ⟨by decide, by decide⟩
+example : Rel exD [] [] := rel_empty exD
+example : (aRun exD [] [.prUpdate [10, 20, 30, 40] [7, -5, -6] 0, .pyGet [10, 20, 30, 40], .pyPop [10, 20, 30, 40],
+    .prLookup [10, 20, 30, 40], .pyIter]).2 = [.r0 0, .value [7, -5, -6], .value [7, -5, -6], .els, .keys []] := by decide
+example : (cRun exD (zeros stackSize) [] [.prUpdate [10, 20, 30, 40] [7, -5, -6] 0, .pyGet [10, 20, 30, 40], .pyPop [10, 20, 30, 40],
+    .prLookup [10, 20, 30, 40], .pyIter]).2 = [.r0 0, .value [7, -5, -6], .value [7, -5, -6], .els, .runtimeError] := by
+  decide +kernel
+example : okDefault ⟨.plain .I, 5, false⟩ = true ∧ okDefault ⟨.plain .q, -7, false⟩ = true := by decide
+example : target (.prAdd 1 200) = some 1 := rfl
 
 end Ebv.C09
